@@ -32,6 +32,7 @@ def parseObs (tok : String) : Obs :=
   | ["rd", s, n] => match parseNat s, parseInt n with | some s, some n => .rd s n | _, _ => .other
   | ["crst", s] => match parseNat s with | some s => .crst s | none => .other
   | ["closed"] => .closed
+  | ["connerr", c] => match parseNat c with | some c => .connerr c | none => .other
   | ["busy"] => .skipped
   | ["nohandler"] => .skipped
   | _ => .other
@@ -40,6 +41,9 @@ def parseBool (s : String) : Option Bool := if s == "1" then some true else if s
 
 def parseAct : List String → Option Act
   | ["reset", c, s] => do pure (.reset (← parseInt c) (← parseInt s))
+  | ["treset", c, s] => do pure (.treset (← parseInt c) (← parseInt s))
+  | ["req", sid, kind] => do pure (.req (← parseNat sid) (← parseNat kind))
+  | ["rhdr", sid, _, es] => do pure (.rhdr (← parseNat sid) (← parseBool es))
   | ["hdr", sid, cl, es] => do pure (.hdr (← parseNat sid) (← parseInt cl) (← parseBool es))
   | ["data", sid, len, pad, es] => do
       let len ← parseInt len
